@@ -205,3 +205,52 @@ CLAIM.update({
         ref="DESIGN.md section 4, C12", technique="model-based property testing (rapid) + systematic name list; three-way reference classifier and round-trip oracle",
         note="shares the end-to-end executor with C03"),
 })
+
+PLAN["C02"] = dict(
+    quick=[dict(test="TestC02Rapid", checks=500), dict(test="TestC02Service", checks=600), *shards("TestC02EveryCut", 4)],
+    thorough=[*shards("TestC02Rapid", 8, checks=10000), *shards("TestC02Service", 6, checks=10000), *shards("TestC02EveryCut", 4)],
+)
+
+PLAN["C11"] = dict(
+    quick=[dict(test="TestC11Rapid", checks=4000), *shards("TestC11Enum", 4)],
+    thorough=[*shards("TestC11Rapid", 12, checks=30000), *shards("TestC11Enum", 4), dict(fuzz="FuzzC11", seconds=120)],
+)
+
+LEVEL.update({"C02": "exploration", "C11": "fault_enumeration"})
+RULE.update({
+    "C02": "case = (a)+(b client side) a client session as in C03 (documents with NUL/quotes/controls/non-BMP strings, sizes around the 4096-byte "
+           "reader buffer, 64 KB, wide, deep; thorough MiB) through a recording proxy on the in-memory transport that re-cuts both directions (1 byte, "
+           "2-9 bytes, 4095/4096/4097, lists of sizes) and optionally holds all reply frames of a call and delivers them in one piece; (b service side) "
+           "1-6 calls with such documents written by a raw client under a cut plan (also over an abstract unix socket); plus EVERY two-segment "
+           "partition of a fixed 4-call request stream and of its reply stream. Oracle: every captured direction splits at NUL into valid JSON objects "
+           "only, ending with a NUL; and under every segmentation both sides recover the model's message sequence (handler log, receive results). "
+           "Non-trivial = some direction re-cut, several frames in one delivery, a frame over 4096 bytes, or hard strings.",
+    "C11": "case = one client Send (flags from all 16 words, generated method/parameters) against a scripted raw server that drains the request "
+           "and plays a generated reply stream of 0-5 frames (valid replies and continues chains, error frames incl. the four standard names with "
+           "matching/mismatching parameters, ~45 wrong-shape/ill-formed constants such as a reply followed by '}' or by a second object, byte-level "
+           "mutants, random bytes, unterminated tail) under a cut plan, dying at a generated offset; the client calls receive once per frame plus once "
+           "more. Plus: all 16 flag words x {nil, object} x {pipe, unix} exhaustively, every constant alone and before a valid frame, and a server "
+           "abort at EVERY byte offset of three reply streams. Oracle: model of the stream (frame i decodes as reply -> exact parameters and Continues; "
+           "error frame -> *Error with exact name/parameters or the typed error; not a reply -> error; stream ended -> io.ErrUnexpectedEOF; forbidden "
+           "flags -> Send fails and the server's first bytes are a later sentinel frame; request frame = exactly the requested method/parameters/flags). "
+           "Non-trivial = EOF inside a frame, valid JSON of the wrong shape, an error frame, or a forbidden flag word.",
+})
+ASSUME.update({
+    "C02": ["pauses between segments are represented by the rendezvous semantics of net.Pipe (each write is delivered alone) and by kernel sockets in the raw-client arm"],
+    "C11": ["on a kernel socket a reset instead of EOF is tolerated when the peer vanished; the exact io.ErrUnexpectedEOF is required on the in-memory transport and whenever the error wraps io.EOF",
+            "for the four standard error names both the typed error and the generic *Error with exact name and parameters are accepted",
+            "the client end of the in-memory transport is wrapped so that arming a deadline after the peer closed is not an error (as on kernel sockets)"],
+})
+CLAIM.update({
+    "C02": dict(
+        text="Framing checked from both ends: a recording, re-segmenting proxy between real client and real service captures every byte (validity "
+             "predicate: NUL-separated valid JSON objects, nothing else) and re-cuts/coalesces both directions (metamorphic: same bytes, other "
+             "segmentation, same messages as the reference model); a raw client drives the service reader; all two-segment partitions of fixed streams enumerated.",
+        ref="DESIGN.md section 4, C02", technique="property-based testing (rapid) with a validity predicate on captured bytes and a metamorphic segmentation relation; bounded-exhaustive cut positions",
+        note="shares executors with C01/C03"),
+    "C11": dict(
+        text="Fault enumeration against a scripted raw server: generated/mutated reply streams, every abort offset of fixed streams, all flag words; "
+             "receive results compared with a stream model; request frames decoded and compared with what was requested; coverage-guided fuzzing in the thorough tier.",
+        ref="DESIGN.md section 4, C11", technique="fuzzing + property-based testing (rapid) with abort-offset and flag-word enumeration; reference stream model as oracle",
+        note="client constructed on a net.Pipe through the overlay accessor, or NewConnection to an abstract unix socket"),
+})
